@@ -528,9 +528,20 @@ pub fn write_mbx(path: &Path, tiles: &BTreeMap<Key, Blob>, fmt: u32, comp: u32, 
 
 /// the tiles of a source spec at the coordinates at which the (possibly converter-wrapped) leaf serves them
 pub fn served_tiles(s: &SrcSpec) -> BTreeMap<Key, u64> {
+	// only what the leaf really serves: placeholder rows (tile_data not a BLOB) of an mbx file are not tiles, and a
+	// zero-length payload reads back as "no tile" from uncompressed versatiles / pmtiles containers
+	let mut tiles = s.tiles.clone();
+	let bk = base_kind(&s.kind);
+	if s.comp == 0 && (bk == "versatiles" || bk == "pmtiles" || bk == "vtx") {
+		tiles.retain(|_, v| *v != EMPTY_ID);
+	}
+	if bk.starts_with("mbx") {
+		let variant: u64 = bk[3..].parse().unwrap_or(0);
+		tiles.retain(|k, _| mbx_class(k, variant) == 0 || mbx_class(k, variant) == 5);
+	}
 	match conv_flags(&s.kind) {
-		None => s.tiles.clone(),
-		Some((flip, swap)) => s.tiles.iter().map(|(k, v)| (conv_coord(*k, flip, swap), *v)).collect(),
+		None => tiles,
+		Some((flip, swap)) => tiles.iter().map(|(k, v)| (conv_coord(*k, flip, swap), *v)).collect(),
 	}
 }
 pub fn wrap_conv(r: Box<dyn TilesReaderTrait>, kind: &str) -> Result<Box<dyn TilesReaderTrait>> {
